@@ -35,29 +35,30 @@ func timeDuration(n int64) time.Duration { return time.Duration(n) }
 
 // Line is one record of the implementation trace.
 type Line struct {
-	K  string `json:"k"`
-	ID string `json:"id,omitempty"`
-	Ev M      `json:"ev,omitempty"`
-	St *State `json:"st,omitempty"`
-	Ds *DataState `json:"ds,omitempty"`
+	K  string        `json:"k"`
+	ID string        `json:"id,omitempty"`
+	Ev M             `json:"ev,omitempty"`
+	St *State        `json:"st,omitempty"`
+	Ds *DataState    `json:"ds,omitempty"`
 	Xs *IntertxState `json:"xs,omitempty"`
-	Ob M      `json:"ob,omitempty"`
+	Ob M             `json:"ob,omitempty"`
 }
 
 // Behaviour is the input: where to start and what to do.
 type Behaviour struct {
-	ID      string          `json:"id"`
-	Unit    string          `json:"unit"`   // micro-credits per abstract unit
-	Render  int             `json:"render"` // decimal rendering profile
-	Seed    int64           `json:"seed"`
-	Family  string          `json:"family"` // "eco" (default) | "data"
-	Genesis json.RawMessage `json:"genesis"` // abstract state, or "default"
-	Weak    *WeakHash       `json:"weak,omitempty"`
-	Steps   []M             `json:"steps"`
-	Driver  int             `json:"driver"` // number of code-led driver steps appended to Steps
-	ExportEvery int         `json:"export_every"` // driver behaviours: an ExportImport observation after every k-th driver step
-	Probes  int             `json:"probes"`
-	ProbeMsgs []M           `json:"probe_msgs"` // edge cover: these messages are tried on throw-away branches of the genesis state // after every step: this many driver messages tried on throw-away branches of the state
+	ID          string          `json:"id"`
+	Unit        string          `json:"unit"`   // micro-credits per abstract unit
+	Render      int             `json:"render"` // decimal rendering profile
+	Seed        int64           `json:"seed"`
+	Family      string          `json:"family"`  // "eco" (default) | "data"
+	Genesis     json.RawMessage `json:"genesis"` // abstract state, or "default"
+	Weak        *WeakHash       `json:"weak,omitempty"`
+	Steps       []M             `json:"steps"`
+	Driver      int             `json:"driver"`       // number of code-led driver steps appended to Steps
+	ReplicaEnd  int             `json:"replica_end"`  // driver behaviours: a Replica(n) observation after the last driver step
+	ExportEvery int             `json:"export_every"` // driver behaviours: an ExportImport observation after every k-th driver step
+	Probes      int             `json:"probes"`
+	ProbeMsgs   []M             `json:"probe_msgs"` // edge cover: these messages are tried on throw-away branches of the genesis state // after every step: this many driver messages tried on throw-away branches of the state
 
 	weakResolved bool
 }
@@ -73,13 +74,14 @@ type runner struct {
 	// what a replica must reproduce: one entry per block (app hash) and per message (result digest)
 	digests []string
 	// replica mode: no projection, no trace; restarts at the block steps listed in restartAt (nil = as the behaviour says)
-	replica   bool
-	restartAt map[int]bool
+	replica    bool
+	restartAt  map[int]bool
 	blockSteps int
 	lastData   *DataState
 	lastX      *IntertxState
 	skipped    string
 	pdrv       *driver
+	drvMsgs    []M // messages produced by the code-led driver (replicas re-execute them)
 }
 
 func noneResp() M { return M{"none": true} }
@@ -156,7 +158,8 @@ func (r *runner) run() {
 	}
 	_, p := r.app.BeginBlock(gi.Time)
 	if r.replica {
-		for _, m := range b.Steps {
+		// the behaviour's steps, then the messages the primary's code-led driver produced
+		for _, m := range append(append([]M{}, b.Steps...), r.drvMsgs...) {
 			r.step(cloneM(m))
 			if r.fatal != "" {
 				return
@@ -196,7 +199,9 @@ func (r *runner) run() {
 			if last == nil {
 				break
 			}
-			r.step(cloneM(d.next(last)))
+			dm := d.next(last)
+			r.drvMsgs = append(r.drvMsgs, cloneM(dm))
+			r.step(cloneM(dm))
 			if r.fatal != "" {
 				return
 			}
@@ -206,6 +211,9 @@ func (r *runner) run() {
 					return
 				}
 			}
+		}
+		if b.ReplicaEnd > 0 && !r.replica {
+			r.step(cloneM(M{"type": "Replica", "n": b.ReplicaEnd}))
 		}
 	}
 }
